@@ -51,6 +51,12 @@ def run(chk, ctx):
             for d in pi.decisions():
                 if d[0] == "variant" and "handle_io" in d[1] and d[2] == ("Err",):
                     shapes.add(canon(pi.ret()))
+        # `Some(r.map(f))` hands r's Err on as it is (Result::map touches only the Ok value)
+        for pi in tab.paths(P, nx, to_return_only=True):
+            r_ = canon(pi.ret())
+            m_ = re.fullmatch(r"Option::Some\{0: Result::map\((DataRowIterator::handle_io\(.*\)), closure\(\{closure#\d+\}\)\)\}", r_)
+            if m_:
+                shapes.add("Option::Some{0: Result::Err{0: err!(%s)}}" % m_.group(1))
         good = len(shapes) == 1 and re.fullmatch(r"Option::Some\{0: Result::Err\{0: err!\(DataRowIterator::handle_io\(.*\)\)\}\}", list(shapes)[0] if shapes else "")
         chk.require(bool(good), "ORG", "ORG:next:handle_io-error-forwarded", "Err(e) => Some(Err(e))", "handle_io's error leaves next() as %s" % sorted(shapes))
         g = count_range(P, nx, DRIVER, {DRI + "handle_io": (1, 1)})
